@@ -424,7 +424,8 @@ impl Callbacks for Cb {
                     out.push(',');
                 }
                 first = false;
-                let _ = write!(out, "{{\"static\":{},\"ty\":{},\"interior_mut\":{}}}", esc(&tcx.def_path_str(did)), esc(&format!("{}", t)), ty_has_interior_mut(tcx, t));
+                let mutable = matches!(k, DefKind::Static { mutability: rustc_hir::Mutability::Mut, .. });
+                let _ = write!(out, "{{\"static\":{},\"ty\":{},\"interior_mut\":{},\"mutable\":{}}}", esc(&tcx.def_path_str(did)), esc(&format!("{}", t)), ty_has_interior_mut(tcx, t), mutable);
             }
         }
         out.push_str("]}");
